@@ -96,20 +96,20 @@ macro_rules! must_panic {
 }
 
 // the expected panic of check_zero_copy is the only whitelisted failure
-// @h zero_check_value props=C17 tier=quick kind=complete vars="v:Wrong(u32) through serialize_zero" allow="Cannot serialize type" fns="ser/helpers.rs:check_zero_copy,ser/helpers.rs:serialize_zero"
+// @h zero_check_value props=C17 tier=quick kind=complete vars="v:Wrong(u32) through serialize_zero" allow="Cannot serialize type|check_zero_copy::" fns="ser/helpers.rs:check_zero_copy,ser/helpers.rs:serialize_zero"
 must_panic!(zero_check_value, Wrong(kani::any()));
-// @h zero_check_vec props=C17 tier=quick kind=bounded bound="len<=2" vars="v:Vec<Wrong> through serialize_slice_zero (len is written after the check)" allow="Cannot serialize type" fns="ser/helpers.rs:serialize_slice_zero"
+// @h zero_check_vec props=C17 tier=quick kind=bounded bound="len<=2" vars="v:Vec<Wrong> through serialize_slice_zero (len is written after the check)" allow="Cannot serialize type|check_zero_copy::" fns="ser/helpers.rs:serialize_slice_zero"
 must_panic!(zero_check_vec, { let n: usize = kani::any(); kani::assume(n <= 2); let mut v = Vec::with_capacity(2); let mut i = 0; while i < n { v.push(Wrong(kani::any())); i += 1; } v });
-// @h zero_check_array props=C17 tier=quick kind=complete vars="v:[Wrong;2] through serialize_zero" allow="Cannot serialize type" fns="impls/array.rs:SerializeHelper<Zero>"
+// @h zero_check_array props=C17 tier=quick kind=complete vars="v:[Wrong;2] through serialize_zero" allow="Cannot serialize type|check_zero_copy::" fns="impls/array.rs:SerializeHelper<Zero>"
 must_panic!(zero_check_array, [Wrong(kani::any()), Wrong(kani::any())]);
-// @h zero_check_iter props=C17 tier=quick kind=complete vars="v:SerIter over [Wrong;2]" allow="Cannot serialize type" fns="impls/iter.rs:SerializeHelper<Zero>"
+// @h zero_check_iter props=C17 tier=quick kind=complete vars="v:SerIter over [Wrong;2]" allow="Cannot serialize type|check_zero_copy::" fns="impls/iter.rs:SerializeHelper<Zero>"
 must_panic!(zero_check_iter, { static W: [Wrong; 2] = [Wrong(1), Wrong(2)]; epserde::impls::iter::SerIter::from(W.iter()) });
 
-// @h zero_check_derived_enum_tuple props=C17,C05 tier=quick kind=complete vars="v:WrongEnumT::Full(u64, Wrong) (derived zero-copy enum whose only offending field sits in a tuple variant)" allow="Cannot serialize type" fns="derive:IS_ZERO_COPY (enum, tuple variant),ser/helpers.rs:serialize_zero"
+// @h zero_check_derived_enum_tuple props=C17,C05 tier=quick kind=complete vars="v:WrongEnumT::Full(u64, Wrong) (derived zero-copy enum whose only offending field sits in a tuple variant)" allow="Cannot serialize type|check_zero_copy::" fns="derive:IS_ZERO_COPY (enum, tuple variant),ser/helpers.rs:serialize_zero"
 must_panic!(zero_check_derived_enum_tuple, WrongEnumT::Full(kani::any(), Wrong(kani::any())));
-// @h zero_check_derived_enum_named props=C17,C05 tier=quick kind=complete vars="v:WrongEnumN::Named{w} (derived zero-copy enum whose only offending field sits in a struct variant)" allow="Cannot serialize type" fns="derive:IS_ZERO_COPY (enum, struct variant)"
+// @h zero_check_derived_enum_named props=C17,C05 tier=quick kind=complete vars="v:WrongEnumN::Named{w} (derived zero-copy enum whose only offending field sits in a struct variant)" allow="Cannot serialize type|check_zero_copy::" fns="derive:IS_ZERO_COPY (enum, struct variant)"
 must_panic!(zero_check_derived_enum_named, WrongEnumN::Named { w: Wrong(kani::any()) });
-// @h zero_check_derived_struct props=C17,C05 tier=quick kind=complete vars="v:WrongStruct{id,w} (derived zero-copy struct)" allow="Cannot serialize type" fns="derive:IS_ZERO_COPY (struct)"
+// @h zero_check_derived_struct props=C17,C05 tier=quick kind=complete vars="v:WrongStruct{id,w} (derived zero-copy struct)" allow="Cannot serialize type|check_zero_copy::" fns="derive:IS_ZERO_COPY (struct)"
 must_panic!(zero_check_derived_struct, WrongStruct { id: kani::any(), w: Wrong(kani::any()) });
 
 /// vacuity guard: a correctly declared type does reach the end
